@@ -1475,6 +1475,16 @@ def core_specs():
     c.append({"t": "C", "tree": N("add", N("tanh", L(0)), N("tanh", L(0))), "leaves": ["dF"]})
     c.append({"t": "C", "tree": N("add", N("tanh", L(0)), N("tanh", L(1))), "leaves": ["dF", "dF"]})
     c.append({"t": "C", "tree": N("concatenate", N("sum", L(0), v=0), N("sum", L(0), v=0)), "leaves": ["dF"]})
+    # ---- sibling sub-expressions that share an upstream node (the graph of the second must be MERGED into the first's, not replace it)
+    c.append({"t": "C", "tree": N("add", N("multiply", L(0), L(1)), N("tanh", L(1))), "leaves": ["dF", "dF"]})
+    c.append({"t": "C", "tree": N("multiply", N("subtract", N("exp", L(0)), L(1)), N("add", N("exp", L(0)), L(0))), "leaves": ["dF", "dF"]})
+    c.append({"t": "C", "tree": N("subtract", N("add", L(0), L(1)), N("multiply", L(1), L(0))), "leaves": ["dF", "dF"]})
+    # ---- an explicit broadcast_to under a unary / binary ufunc (the binary ufunc's own implicit broadcast_to wrappers are skipped by the
+    #      extraction code; one written by the user is part of the function)
+    c.append({"t": "C", "tree": N("negative", N("broadcast_to", L(0))), "leaves": ["dF"]})
+    c.append({"t": "C", "tree": N("tanh", N("negative", N("broadcast_to", L(0)))), "leaves": ["dF"]})
+    c.append({"t": "C", "tree": N("subtract", N("broadcast_to", L(0)), L(1)), "leaves": ["dF", "sF"]})
+    c.append({"t": "C", "tree": N("sum", N("fabs", N("broadcast_to", L(0), v=1)), v=1), "leaves": ["dF"]})
     # ---- single functors: several attributes (same and different types), n-ary operand splits, attributes after curried operands
     c.append({"t": "A", "f": "sum", "v": 2, "leaves": ["dF"]})
     c.append({"t": "A", "f": "hardtanh", "v": 1, "leaves": ["dF"]})
